@@ -12,4 +12,8 @@ ASSIGNS()
 ENSURES((RET != NULL) == (protocol == 0x0101 || protocol == 0x0200 || protocol == 0x0300 || protocol == 0x0301 || protocol == 0x0302
 	|| protocol == 0x0303 || protocol == 0x0304 || protocol == 0xfeff || protocol == 0xfefd))
 ;
+const char *tls_handshake_type_name(int type)
+ASSIGNS()
+ENSURES((RET != NULL) == ((type >= 0 && type <= 6) || type == 8 || (type >= 11 && type <= 16) || (type >= 20 && type <= 26) || type == 254))
+;
 #endif
